@@ -265,6 +265,8 @@ pub fn parse_complete<F: LemireFloat, const FORMAT: u128>(
         parse_number!(FORMAT, byte, is_negative, options, parse_complete_number, parse_special);
     // Try the fast-path algorithm.
     if let Some(value) = num.try_fast_path::<_, FORMAT>() {
+        #[cfg(lexical_verif)]
+        lexical_util::verif::hit(lexical_util::verif::PARSE_FAST);
         return Ok(value);
     }
     // Now try the moderate path algorithm.
@@ -273,6 +275,12 @@ pub fn parse_complete<F: LemireFloat, const FORMAT: u128>(
     // Unable to correctly round the float using the fast or moderate algorithms.
     // Fallback to a slower, but always correct algorithm. If we have
     // lossy, we can't be here.
+    #[cfg(lexical_verif)]
+    lexical_util::verif::hit(if fp.exp < 0 {
+        lexical_util::verif::PARSE_SLOW
+    } else {
+        lexical_util::verif::PARSE_MODERATE_OK
+    });
     if fp.exp < 0 {
         debug_assert!(!options.lossy(), "lossy algorithms never use slow algorithms");
         // Undo the invalid extended float biasing.
@@ -339,10 +347,18 @@ pub fn parse_partial<F: LemireFloat, const FORMAT: u128>(
     );
     // Try the fast-path algorithm.
     if let Some(value) = num.try_fast_path::<_, FORMAT>() {
+        #[cfg(lexical_verif)]
+        lexical_util::verif::hit(lexical_util::verif::PARSE_FAST);
         return Ok((value, count));
     }
     // Now try the moderate path algorithm.
     let mut fp = moderate_path::<F, FORMAT>(&num, options.lossy());
+    #[cfg(lexical_verif)]
+    lexical_util::verif::hit(if fp.exp < 0 {
+        lexical_util::verif::PARSE_SLOW
+    } else {
+        lexical_util::verif::PARSE_MODERATE_OK
+    });
 
     // Unable to correctly round the float using the fast or moderate algorithms.
     // Fallback to a slower, but always correct algorithm. If we have
@@ -782,6 +798,8 @@ pub fn parse_number<'a, const FORMAT: u128, const IS_PARTIAL: bool>(
     if n_digits > 0 {
         // Have more than 19 significant digits, so we overflowed.
         many_digits = true;
+        #[cfg(lexical_verif)]
+        lexical_util::verif::hit(lexical_util::verif::PARSE_MANY_DIGITS);
         mantissa = 0;
         let mut integer = integer_digits.bytes::<{ FORMAT }>();
         // Skip leading zeros, so we can use the step properly.
